@@ -273,9 +273,60 @@ fn check_symbol_paths(ctx: &mut Ctx) {
     }
 }
 
+/// every ordered pair (and some triples) of look-alike paths inside one expression: paths whose *spelling*
+/// could be confused (dotted key vs two steps, key "0" vs index 0, a field called ":s" vs the symbol s)
+fn check_path_pairs(ctx: &mut Ctx) {
+    let m = |items: Vec<(&str, Value)>| Value::Map(items.into_iter().map(|(k, v)| (k.to_string(), v)).collect());
+    let facts = m(vec![
+        ("a.b", Value::Int(1)),
+        ("a", m(vec![("b", Value::Int(2)), ("0", Value::Int(5)), ("b.c", Value::Int(10))])),
+        ("x.a", m(vec![("b", Value::Int(3))])),
+        ("x", m(vec![("a", m(vec![("b", Value::Int(4))])), ("a.b", Value::Int(11))])),
+        (":s", Value::Int(6)),
+        ("s", Value::Int(12)),
+        ("l", Value::Vec(vec![Value::Int(7), Value::Int(8)])),
+        ("facts", m(vec![("a", Value::Int(13))])),
+    ]);
+    let mut symbols = BTreeMap::new();
+    symbols.insert("s".to_string(), Value::Int(9));
+    symbols.insert("a".to_string(), m(vec![("b", Value::Int(14))]));
+    let f = |e: Expr, k: &str| Expr::index(e, Index::from(k));
+    let i = |e: Expr, k: usize| Expr::index(e, Index::from(k));
+    let paths: Vec<Expr> = vec![
+        Expr::reff("a.b"), f(Expr::reff("a"), "b"), f(Expr::reff("x.a"), "b"), f(f(Expr::reff("x"), "a"), "b"), f(Expr::reff("x"), "a.b"), f(Expr::reff("a"), "b.c"),
+        f(Expr::reff("a"), "0"), i(Expr::reff("a"), 0), Expr::reff(":s"), Expr::symbol("s"), Expr::reff("s"), i(Expr::reff("l"), 0), f(Expr::reff("l"), "0"), i(Expr::reff("l"), 1),
+        f(f(Expr::reff("facts"), "a"), "b"), f(Expr::reff("facts"), "a.b"), f(Expr::reff("facts"), "facts"), f(Expr::symbol("a"), "b"), Expr::reff("facts"), f(f(Expr::reff("facts"), "facts"), "a"),
+    ];
+    let mut rules = vec![];
+    for (pi, p) in paths.iter().enumerate() {
+        for (qi, q) in paths.iter().enumerate() {
+            rules.push((format!("pair {pi},{qi}"), Expr::Vec(vec![Expr::some(p.clone()), Expr::some(q.clone()), Expr::eq(p.clone(), q.clone())])));
+            if (pi + qi) % 5 == 0 {
+                rules.push((format!("pair-in-map {pi},{qi}"), Expr::Map([("z".to_string(), Expr::none(p.clone())), ("a".to_string(), Expr::none(q.clone()))].into_iter().collect())));
+            }
+        }
+    }
+    // `some(..)` / `none(..)` never fail on a value, but a step of the wrong kind still must: keep the raw pairs of the error-free paths too
+    let fx = build(&[], &symbols, &rules, FaultPlan::default());
+    let pred = fx.predict(&facts);
+    match fx.eval(&facts, 1) {
+        Ok(res) => {
+            for ((name, exp), (_, obs)) in pred.outcomes.iter().zip(res.outcomes.iter()) {
+                ctx.count();
+                ctx.hit("path:look-alike-pairs");
+                if let Some(mis) = compare(exp, obs) {
+                    ctx.violation(format!("C10 look-alike-paths-in-one-expression {mis}"), format!("{name}: two look-alike paths inside one expression were confused"), json!({"rule": name, "observed": show_obs(obs), "expected": show_exp(exp)}));
+                    return;
+                }
+            }
+        }
+        Err(p) => ctx.violation("C10 name evaluation-failed", p, json!({})),
+    }
+}
+
 fn check_names(ctx: &mut Ctx, rng: &mut Rng) {
     // symbols and functions with near-miss names; lookups must hit exactly the registered name
-    let names = ["Name", "name", "NAME", "nam", "name_", "facts", "a"];
+    let names = ["Name", "name", "NAME", "nam", "name_", "facts", "a", ":name", "::name", ":a", "name:"];
     let mut symbols = BTreeMap::new();
     let mut id = 1000;
     for n in names {
@@ -383,11 +434,41 @@ fn run(ctx: &mut Ctx) {
             let textable = is_plain_ident(root) && k % 7 == 0;
             check_path(ctx, &facts, root, steps, textable);
         }
+        // two (or three) paths inside ONE expression: a lookup must not be answered from another lookup
+        for _ in 0..40 {
+            let picks: Vec<&(String, Vec<Step>)> = (0..2 + rng.below(2)).map(|_| &paths[rng.below(paths.len())]).collect();
+            let e = Expr::Vec(picks.iter().map(|(r, s)| to_expr(r, s)).collect());
+            let exp: Exp = {
+                let mut out = vec![];
+                let mut err = None;
+                for (r, s) in &picks {
+                    match resolve(&facts, r, s) {
+                        Ok(v) => out.push(v),
+                        Err(e) => {
+                            err = Some(e);
+                            break;
+                        }
+                    }
+                }
+                match err {
+                    Some(e) => Err(e),
+                    None => Ok(Value::Vec(out)),
+                }
+            };
+            ctx.count();
+            ctx.hit("path:several-in-one-expression");
+            let obs = eval_real(&e, &facts);
+            if let Some(mis) = compare(&exp, &obs) {
+                ctx.violation(format!("C10 several-paths-in-one-expression {mis}"), "lookups inside one expression influenced each other".to_string(), json!({"expr": show_expr(&e), "expr_debug": clip(format!("{e:?}"), 600), "input": clip(format!("{facts:?}"), 1200), "observed": show_obs(&obs), "expected": show_exp(&exp)}));
+                break;
+            }
+        }
         check_names(ctx, &mut rng);
     }
     if ctx.shard == 0 {
         check_index_spellings(ctx);
         check_symbol_paths(ctx);
+        check_path_pairs(ctx);
     }
     ctx.rng = rng;
 }
